@@ -625,6 +625,27 @@ pub fn c09(n: usize, start: usize, len: usize, end: End) -> Vec<Case> {
                     out.push(base(n, start, len, ops));
                 }
             }
+            if end == End::Forget {
+                // forgetting after the skipping consumers, including skips that run past either end of what is left
+                for pre in [vec![], vec![Step::Next], vec![Step::NextBack]] {
+                    for k in 0..=(b - a + 1) as u8 {
+                        for t in [vec![Step::Nth(k)], vec![Step::NthBack(k)], vec![Step::Nth(k), Step::NextBack], vec![Step::NthBack(k), Step::Next]] {
+                            let mut s = pre.clone();
+                            s.extend(t);
+                            let mut ops = vec![Op::Drain(canonical(a, b), s, End::Forget)];
+                            ops.extend(tail(a + b + k as usize));
+                            out.push(base(n, start, len, ops));
+                        }
+                    }
+                    for t in [Step::FindMid, Step::RFindMid] {
+                        let mut s = pre.clone();
+                        s.push(t);
+                        let mut ops = vec![Op::Drain(canonical(a, b), s, End::Forget)];
+                        ops.extend(tail(a + 2 * b));
+                        out.push(base(n, start, len, ops));
+                    }
+                }
+            }
             if end == End::Drop {
                 out.push(base(n, start, len, vec![Op::Drain(canonical(a, b), vec![Step::Dbg, Step::Next, Step::Dbg, Step::NextBack, Step::Dbg], End::Drop)]));
                 // the adaptor-style consumers (default implementations today): nth, nth_back, count,
@@ -662,6 +683,13 @@ pub fn c11(n: usize, start: usize, len: usize) -> Vec<Case> {
     ops.push(Op::IterScript(IterKind::Iter, vec![]));
     ops.push(Op::IterScript(IterKind::IterMut, vec![]));
     ops.push(Op::IntoIter(vec![]));
+    for st in [Step::Nth(255), Step::NthBack(255), Step::Skip(255), Step::StepBy(255), Step::Nth(len as u8), Step::NthBack(len as u8 + 1)] {
+        for k in [IterKind::Iter, IterKind::IterMut, IterKind::Range(canonical(0, len)), IterKind::RangeMut(canonical(0, len))] {
+            ops.push(Op::IterScript(k, vec![st.clone(), Step::Next]));
+        }
+        ops.push(Op::IntoIter(vec![st.clone(), Step::Next]));
+        ops.push(Op::Drain(canonical(0, len), vec![st.clone(), Step::Next], End::Drop));
+    }
     ops.push(Op::DropBuf);
     ops.push(Op::MoveBuf);
     ops.push(Op::FromIter(3, Hint::Exact));
@@ -751,4 +779,110 @@ pub fn c20(n: usize, start: usize, len: usize) -> Vec<Case> {
         out.push(c);
     }
     out
+}
+
+
+// ------------------------------------------------------------------------------------------
+// sparse space for the larger capacities: every operation at the boundary positions of one layout
+
+/// Positions worth trying in a buffer of `len` elements whose front sits at physical index `start`:
+/// both ends, the middle, the logical index where the contents wrap around the end of the array, and the
+/// neighbourhoods of 32 and 64 (thresholds an implementation might special-case).
+pub fn boundary_positions(n: usize, start: usize, len: usize) -> Vec<usize> {
+    let mut v: Vec<usize> = vec![0, 1, 2, len / 2, len.saturating_sub(2), len.saturating_sub(1), len, len + 1, 7, 8, 9, 15, 16, 17, 31, 32, 33, 63, 64, 65];
+    if start > 0 && n > start {
+        let w = n - start;
+        v.extend([w.saturating_sub(1), w, w + 1]);
+    }
+    v.retain(|p| *p <= len + 1);
+    v.sort_unstable();
+    v.dedup();
+    v
+}
+
+pub fn large_units(n: usize) -> Vec<(usize, usize, usize)> {
+    let mut starts = vec![0, 1, n / 2, n.saturating_sub(2), n.saturating_sub(1)];
+    starts.retain(|s| *s < n.max(1));
+    starts.sort_unstable();
+    starts.dedup();
+    let mut lens = vec![0, 1, 2, 3, n / 2, n.saturating_sub(2), n.saturating_sub(1), n, 31, 32, 33, 63, 64, 65];
+    lens.retain(|l| *l <= n);
+    lens.sort_unstable();
+    lens.dedup();
+    let mut out = Vec::new();
+    for l in &lens {
+        for s in &starts {
+            out.push((n, *s, *l));
+        }
+    }
+    out
+}
+
+pub fn large(n: usize, start: usize, len: usize) -> Vec<Case> {
+    let pos = boundary_positions(n, start, len);
+    let mut ix: Vec<Idx> = pos.iter().map(|p| Idx::At(*p as u32)).collect();
+    ix.push(Idx::Max(0));
+    let mut ops = vec![
+        Op::PushBack, Op::PushFront, Op::TryPushBack, Op::TryPushFront, Op::PopBack, Op::PopFront, Op::Clear, Op::Fill, Op::FillWith,
+        Op::FillSpare, Op::FillSpareWith, Op::MakeContiguous, Op::Views, Op::ToVec, Op::Dbg(false), Op::Dbg(true), Op::CloneBuf(false),
+        Op::CloneBuf(true), Op::EqSlice(None), Op::EqSlice(Some(Idx::Past(1))), Op::DropBuf, Op::MoveBuf,
+    ];
+    for i in &ix {
+        ops.push(Op::Remove(*i));
+        ops.push(Op::SwapRemoveBack(*i));
+        ops.push(Op::SwapRemoveFront(*i));
+        ops.push(Op::TruncateBack(*i));
+        ops.push(Op::TruncateFront(*i));
+        ops.push(Op::Read(*i));
+        ops.push(Op::EqSlice(Some(*i)));
+        for j in &ix {
+            ops.push(Op::Swap(*i, *j));
+        }
+        for a in ALL_ACC {
+            ops.push(Op::Set(*a, *i));
+            ops.push(Op::Mutate(*a, *i));
+        }
+    }
+    let free = n - len.min(n);
+    let mut ms: Vec<usize> = vec![0, 1, 2, free.saturating_sub(1), free, free + 1, n.saturating_sub(1), n, n + 1, 2 * n + 1, 31, 32, 33, 63, 64, 65];
+    ms.sort_unstable();
+    ms.dedup();
+    for m in ms {
+        ops.push(Op::Extend(m as u32, Hint::Exact));
+        ops.push(Op::Extend(m as u32, Hint::Low));
+        ops.push(Op::ExtendFromSlice(m as u32));
+        ops.push(Op::FromIter(m as u32, Hint::Exact));
+    }
+    let inr: Vec<usize> = pos.iter().copied().filter(|p| *p <= len).collect();
+    for (ai, a) in inr.iter().enumerate() {
+        for b in &inr[ai..] {
+            let r = canonical(*a, *b);
+            ops.push(Op::Drain(r, vec![], End::Drop));
+            ops.push(Op::Drain(r, vec![Step::Next, Step::NextBack], End::Drop));
+            ops.push(Op::Drain(r, vec![Step::Nth(2), Step::NthBack(1)], End::Drop));
+            ops.push(Op::Drain(r, vec![Step::NextBack, Step::Next], End::Forget));
+            ops.push(Op::IterScript(IterKind::Range(r), vec![Step::Next, Step::NextBack, Step::Nth(1), Step::NthBack(1), Step::Fork]));
+            ops.push(Op::IterScript(IterKind::RangeMut(r), vec![Step::NextBack, Step::Next, Step::NthBack(2), Step::Nth(0)]));
+        }
+    }
+    ops.push(Op::Drain(canonical(0, len + 1), vec![], End::Drop));
+    ops.push(Op::IterScript(IterKind::Iter, vec![Step::Next, Step::NextBack, Step::Nth(30), Step::NthBack(31), Step::Fork, Step::Search]));
+    ops.push(Op::IterScript(IterKind::IterMut, vec![Step::NextBack, Step::Nth(31), Step::NthBack(30), Step::RevCollect]));
+    ops.push(Op::IntoIter(vec![Step::Next, Step::NextBack, Step::Nth(3), Step::Fork, Step::RevCollect]));
+    ops.push(Op::IntoIter(vec![Step::NthBack(33), Step::Fold]));
+    if n > 0 {
+        for s in [0, 1, n / 2, n - 1] {
+            for l in [0, 1, n / 2, n] {
+                ops.push(Op::CloneFrom(s as u32, l as u32));
+            }
+            ops.push(Op::Cmp(s as u32, len as u32, None));
+            ops.push(Op::Cmp(s as u32, len.saturating_sub(1) as u32, None));
+            if len > 0 {
+                ops.push(Op::Cmp(s as u32, len as u32, Some(Idx::At((len - 1) as u32))));
+                ops.push(Op::Cmp(s as u32, len as u32, Some(Idx::At((len / 2) as u32))));
+            }
+        }
+    }
+    // every step is followed by two insertions that make a misplaced front visible
+    ops.into_iter().map(|op| base(n, start, len, vec![op, Op::PushBack, Op::PushFront])).collect()
 }
